@@ -24,6 +24,15 @@ def fs(*a):
     return frozenset(a)
 
 
+def failed(st, fn, n, what=None):
+    """mark the first failing library call on this path (used by the all-or-nothing rules)"""
+    if "failed" in st.mon:
+        return st
+    s = st.copy()
+    s.mon["failed"] = "%s@%s:%d" % (what or n.get("callee"), fn.name, n["l"][0])
+    return s
+
+
 def targets(I, val):
     return [a[1] for a in val if isinstance(a, tuple) and a[0] == "addr"]
 
@@ -60,7 +69,7 @@ def new_fd(I, fn, n, st, idx=0, cloexec=False, kind="fd"):
 
 
 def m_pipe(I, fn, n, args, st):
-    out = [(st, fs(-1))]
+    out = [(failed(st, fn, n), fs(-1))]
     s, t0 = new_fd(I, fn, n, st, 0, False, "pipe-read")
     s, t1 = new_fd(I, fn, n, s, 1, False, "pipe-write")
     for t in targets(I, args[0]):
@@ -79,7 +88,7 @@ def m_open(I, fn, n, args, st):
         cloexec = or_contains_const(flags_node, 0o2000000)
     s, t = new_fd(I, fn, n, st, 0, bool(cloexec), "file")
     ev(I, "fd-create", fn, n, ("open", t, cloexec), s)
-    return [(st, fs(-1)), (s, fs(t))]
+    return [(failed(st, fn, n), fs(-1)), (s, fs(t))]
 
 
 def or_contains_const(node, value):
@@ -122,8 +131,7 @@ def m_fork(I, fn, n, args, st):
     parent.mon["proc"] = "parent"
     pid = ("pid", "%s:%d" % (fn.name, n["l"][0]), 0)
     parent.res[pid] = ("running",)
-    failed = st.copy()
-    return [(failed, fs(-1)), (child, fs(0)), (parent, fs(pid))]
+    return [(failed(st, fn, n), fs(-1)), (child, fs(0)), (parent, fs(pid))]
 
 
 def m_waitpid(I, fn, n, args, st):
@@ -140,7 +148,11 @@ def m_waitpid(I, fn, n, args, st):
     for a in args[0]:
         if isinstance(a, tuple) and a[0] == "pid" and s_gone.res.get(a) == ("running",):
             s_gone.res[a] = ("gone",)       # ECHILD: somebody else reaped it; nothing is left behind
-    return [(with_errno(st, fs(EINTR)), fs(-1)), (with_errno(s_gone, other), fs(-1)), (s_ok, args[0])]
+    s_int = st.copy()
+    s_int.mon["eintr"] = "%s@%s:%d" % (n.get("callee"), fn.name, n["l"][0])
+    s_gone.mon.pop("eintr", None)
+    s_ok.mon.pop("eintr", None)
+    return [(with_errno(s_int, fs(EINTR)), fs(-1)), (with_errno(failed(s_gone, fn, n), other), fs(-1)), (s_ok, args[0])]
 
 
 def m_kill(I, fn, n, args, st):
@@ -149,6 +161,21 @@ def m_kill(I, fn, n, args, st):
 
 
 EINTR = 4
+
+
+def interrupted(st, fn, n):
+    s = st.copy()
+    s.mon["eintr"] = "%s@%s:%d" % (n.get("callee"), fn.name, n["l"][0])
+    s.mon["lastread"] = "eintr"
+    return s
+
+
+def not_interrupted(st, how=None):
+    s = st.copy()
+    s.mon.pop("eintr", None)
+    if how:
+        s.mon["lastread"] = how
+    return s
 
 
 def with_errno(st, val):
@@ -162,13 +189,18 @@ def m_read(I, fn, n, args, st):
     """blocking read on a valid descriptor: interrupted, other failure, end of file, or data"""
     ev(I, "read", fn, n, args, st)
     s = havoc_targets(I, st, args[1])
-    other = frozenset(a for a in I.pos() if a != EINTR)
-    return [(with_errno(st, fs(EINTR)), fs(-1)), (with_errno(st, other), fs(-1)), (st, fs(0)), (s, I.pos())]
+    outs = [(interrupted(with_errno(st, fs(EINTR)), fn, n), fs(-1)),
+            (not_interrupted(st, "eof"), fs(0)), (not_interrupted(s, "data"), I.pos())]
+    if any(st.res.get(("nb", a)) not in (None, fs(0)) for a in args[0] if isinstance(a, tuple)) or \
+            not any(isinstance(a, tuple) and a[0] == "fd" for a in args[0]):
+        # descriptor (possibly) in nonblocking mode: would-block is a further failure mode
+        outs.append((not_interrupted(with_errno(failed(st, fn, n), fs(I.abs_int(11))), "fail"), fs(-1)))
+    return outs
 
 
 def m_write(I, fn, n, args, st):
     ev(I, "write", fn, n, args, st)
-    return [(st, fs(-1)), (st, I.nonneg())]
+    return [(failed(st, fn, n), fs(-1)), (st, I.nonneg())]
 
 
 def m_fcntl(I, fn, n, args, st):
@@ -179,8 +211,11 @@ def m_fcntl(I, fn, n, args, st):
         s, t = new_fd(I, fn, n, st, 0, cmd != fs(0), "dup")
         ev(I, "fd-create", fn, n, ("dupfd", t, args[0]), s)
         s.res[t] = ("open", cmd != fs(0), "dup", args[0])
-        return [(st, fs(-1)), (s, fs(t))]
-    return [(st, fs(-1)), (st, I.nonneg())]
+        return [(failed(st, fn, n), fs(-1)), (s, fs(t))]
+    if cmd == fs(1):
+        # F_GETFD is the "is this a descriptor" probe: failing (EBADF) is an answer, not an error
+        return [(st, fs(-1)), (st, I.nonneg())]
+    return [(failed(st, fn, n), fs(-1)), (st, I.nonneg())]
 
 
 def m_dup2(I, fn, n, args, st):
@@ -192,7 +227,7 @@ def m_dup2(I, fn, n, args, st):
             same = (args[0] == args[1])
             s.res[("slot", a)] = ("installed", args[0], "same" if same else "dup")
             s.res.pop(("slotflag", a), None)
-    return [(st, fs(-1)), (s, args[1])]
+    return [(failed(st, fn, n), fs(-1)), (s, args[1])]
 
 
 def new_mem(I, fn, n, st):
@@ -214,7 +249,7 @@ def new_mem(I, fn, n, st):
 def m_alloc(I, fn, n, args, st):
     s, t = new_mem(I, fn, n, st)
     ev(I, "alloc", fn, n, t, s)
-    return [(st, fs("NULL")), (s, fs(t))]
+    return [(failed(st, fn, n), fs("NULL")), (s, fs(t))]
 
 
 def m_realloc(I, fn, n, args, st):
@@ -223,7 +258,7 @@ def m_realloc(I, fn, n, args, st):
         if isinstance(a, tuple) and a[0] == "mem":
             s.res[a] = ("moved",)
     ev(I, "alloc", fn, n, t, s)
-    return [(st, fs("NULL")), (s, fs(t))]
+    return [(failed(st, fn, n), fs("NULL")), (s, fs(t))]
 
 
 def m_free(I, fn, n, args, st):
@@ -248,13 +283,13 @@ def m_free(I, fn, n, args, st):
 def m_getcwd(I, fn, n, args, st):
     ev(I, "getcwd", fn, n, args, st)
     s = havoc_targets(I, st, args[0])
-    return [(st, fs("NULL")), (s, frozenset(a for a in args[0] if a != "NULL"))]
+    return [(failed(st, fn, n), fs("NULL")), (s, frozenset(a for a in args[0] if a != "NULL"))]
 
 
 def m_execvp(I, fn, n, args, st):
     ev(I, "exec", fn, n, args, st)
     I.result.aborts.append((st, n, fn))
-    return [(st, fs(-1))]
+    return [(failed(st, fn, n), fs(-1))]
 
 
 def m_sigset(kind):
@@ -263,7 +298,7 @@ def m_sigset(kind):
         for t in targets(I, args[0]):
             I.kill_prefix(s, t)
             s.mem[t] = fs(("sym", kind))
-        return [(st, fs(-1)), (s, fs(0))]
+        return [(failed(st, fn, n), fs(-1)), (s, fs(0))]
     return m
 
 
@@ -288,29 +323,31 @@ def m_sigmask(errpos):
         if newv == fs(("sym", "ORIG")):
             # C12 excludes a failure of the restoring call itself
             return [(s, fs(0))]
-        return [(st, fail), (s, fs(0))]
+        return [(failed(st, fn, n), fail), (s, fs(0))]
     return m
 
 
 def m_sigaction(I, fn, n, args, st):
+    """fails with EINVAL for signal numbers that cannot be changed (tolerated by callers), or otherwise"""
     ev(I, "sigaction", fn, n, args, st)
-    return [(st, fs(-1)), (st, fs(0))]
+    other = frozenset(a for a in I.pos() if a != 22)
+    return [(with_errno(st, fs(22)), fs(-1)), (with_errno(failed(st, fn, n), other), fs(-1)), (st, fs(0))]
 
 
 def m_chdir(I, fn, n, args, st):
     ev(I, "chdir", fn, n, args, st)
-    return [(st, fs(-1)), (st, fs(0))]
+    return [(failed(st, fn, n), fs(-1)), (st, fs(0))]
 
 
 def m_getrlimit(I, fn, n, args, st):
     s = havoc_targets(I, st, args[1])
-    return [(st, fs(-1)), (s, fs(0))]
+    return [(failed(st, fn, n), fs(-1)), (s, fs(0))]
 
 
 def m_poll(I, fn, n, args, st):
     ev(I, "poll", fn, n, args, st)
     s = havoc_targets(I, st, args[0])
-    return [(st, fs(-1)), (s, fs(0)), (s, I.pos())]
+    return [(failed(st, fn, n), fs(-1)), (s, fs(0)), (s, I.pos())]
 
 
 def m_clock(I, fn, n, args, st):
